@@ -1,6 +1,7 @@
 package vsched
 
 import (
+	"fmt"
 	"reflect"
 	"runtime"
 	"unsafe"
@@ -120,6 +121,9 @@ func (r *runtimeState) chanOp(cases []selCase, hasDefault bool) (int, any, bool)
 	t.cw = w
 	t.kind = OpChan
 	t.hash = mix(t.hash, uint64(len(cases))+0x200)
+	if r.trace {
+		r.x.Trace = append(r.x.Trace, fmt.Sprintf("t%d(%s):chan/%d %s", t.id, t.name, len(cases), callerInfo()))
+	}
 	for i := range cases {
 		c := &cases[i]
 		if c.ch == nil {
